@@ -585,3 +585,45 @@ func RunFixed(t *testing.T, id string, cases map[string]func() error) {
 func NewReplayCase(trace []int) *Case {
 	return &Case{ch: &recChooser{inner: &replayChooser{trace: trace}}}
 }
+
+// bytesChooser turns fuzzer-provided bytes into choices (coverage-guided structured fuzzing).
+type bytesChooser struct {
+	data []byte
+	pos  int
+}
+
+func (b *bytesChooser) Int(n int) int {
+	if n <= 1 {
+		return 0
+	}
+	if b.pos >= len(b.data) {
+		return 0
+	}
+	v := int(b.data[b.pos])
+	b.pos++
+	if n > 256 && b.pos < len(b.data) {
+		v = v<<8 | int(b.data[b.pos])
+		b.pos++
+	}
+	return v % n
+}
+
+// RunFuzz drives prop with Go's native fuzzer: the input bytes become the choice
+// sequence. replayTest names the (rapid) test over the same property through which
+// a recorded choice trace can be replayed.
+func RunFuzz(f *testing.F, id, replayTest string, seeds [][]byte, prop Prop) {
+	for _, s := range seeds {
+		f.Add(s)
+	}
+	f.Fuzz(func(t *testing.T, data []byte) {
+		r := newRunner(id, replayTest, "go-fuzz")
+		c, err := r.execute(&bytesChooser{data: data}, prop, false)
+		if err != nil {
+			if v, ok := err.(*Violation); ok && r.known[v.Sig] {
+				return
+			}
+			p := r.writeReplay(c, err)
+			t.Fatalf("VERIF-VIOLATION property=%s replayfile=%s\n%v", id, p, err)
+		}
+	})
+}
